@@ -556,6 +556,7 @@ _dispatch_event_merge_hangup(dispatch_unote_t du)
 	// consumed by dux_merge_evt()
 	_dispatch_retain_unote_owner(du);
 	dispatch_unote_state_t du_state = _dispatch_unote_state(du);
+	DISPATCH_VERIF_PROBE(14);
 	du_state |= DU_STATE_NEEDS_DELETE;
 	du_state &= ~DU_STATE_ARMED;
 	_dispatch_unote_state_set(du, du_state);
